@@ -432,12 +432,9 @@ fn case_json(pr: Params, choices: &[usize]) -> Value {
     json!({"leg":"exec-spec","policy":pr.pol.name(),"p":pr.p,"max_speculative":pr.m,"idempotent":pr.idem,"no_conn_mask":pr.mask,"alt_failures":pr.alt,"choices":choices})
 }
 
-fn main() {
-    vcore::quiet_panics();
-    let r = Report::new("C13", "exec-spec", "model_checking", "E-ASYNC");
-    if let Err(e) = h_drv::specmodel::self_test() {
-        vcore::machinery_error(&format!("specmodel self-test failed: {e}"));
-    }
+const EXTREME_MAX: [usize; 4] = [usize::MAX, usize::MAX - 1, u32::MAX as usize, 1usize << 40];
+
+fn fail_syms() -> (Vec<Sym>, Vec<Sym>) {
     let all = retrysym::extended_alphabet();
     let pick = |table: &[(&str, bool)]| -> Vec<Sym> {
         table
@@ -448,9 +445,63 @@ fn main() {
             })
             .collect()
     };
-    let fails_main = pick(&FAILS);
-    let fails_alt = pick(&FAILS_ALT);
+    (pick(&FAILS), pick(&FAILS_ALT))
+}
+
+/// Child mode `--probe-extreme <max>`: default schedules with one extreme max count in a process of their own (see c13a).
+fn probe_child(m: usize) -> ! {
+    vcore::quiet_panics();
+    vcore::sandbox::limit_address_space(8 << 30);
+    let (fails_main, _) = fail_syms();
+    for p in 0..=2 {
+        for choices in [vec![], vec![5usize], vec![5, 5]] {
+            let out = one_execution(Params { p, m, idem: true, pol: Policy::Default, mask: 0, alt: false }, &fails_main, &mut Chooser::new(choices));
+            if let Some((k, t)) = out.verdict {
+                println!("{k} :: {t} | p={p}");
+                std::process::exit(3);
+            }
+        }
+    }
+    std::process::exit(0)
+}
+
+fn probe_extreme(m: usize) -> Result<(), (String, String)> {
+    let res = vcore::sandbox::run_self(&["--probe-extreme", &m.to_string()], b"", Duration::from_secs(120));
+    if res.timed_out {
+        return Err(("exec:hang".into(), format!("with max speculative count {m} a short schedule did not finish within 120 s")));
+    }
+    match (res.exit_code, res.signal) {
+        (Some(0), _) => Ok(()),
+        (Some(3), _) => {
+            let line = String::from_utf8_lossy(&res.stdout).lines().last().unwrap_or("").to_string();
+            let (k, t) = line.split_once(" :: ").unwrap_or(("exec:unknown", &line));
+            Err((k.to_string(), t.to_string()))
+        }
+        (code, sig) => Err(("exec:abort".into(), format!("with max speculative count {m} the process died (exit {code:?}, signal {sig:?}) inside the execution core: {}", res.stderr_tail.trim().replace('\n', " / ")))),
+    }
+}
+
+fn main() {
+    {
+        let a: Vec<String> = std::env::args().collect();
+        if let Some(i) = a.iter().position(|x| x == "--probe-extreme") {
+            probe_child(a.get(i + 1).and_then(|s| s.parse().ok()).unwrap_or(0));
+        }
+    }
+    vcore::quiet_panics();
+    let r = Report::new("C13", "exec-spec", "model_checking", "E-ASYNC");
+    if let Err(e) = h_drv::specmodel::self_test() {
+        vcore::machinery_error(&format!("specmodel self-test failed: {e}"));
+    }
+    let (fails_main, fails_alt) = fail_syms();
     if let Some(case) = r.replay_case() {
+        if case["probe"].as_bool() == Some(true) {
+            if let Err((k, t)) = probe_extreme(case["max_speculative"].as_u64().unwrap_or(0) as usize) {
+                println!("{t}");
+                r.violation(&k, &t, case.clone());
+            }
+            r.finish_replay();
+        }
         let pr = Params {
             p: case["p"].as_u64().unwrap_or(1) as usize,
             m: case["max_speculative"].as_u64().unwrap_or(0) as usize,
@@ -504,7 +555,15 @@ fn main() {
         }
     }
     // "unlimited, bounded by the plan": huge max counts through SimpleSpeculativeExecutionPolicy (the plan ends the ticks)
-    for m in [usize::MAX, usize::MAX - 1, u32::MAX as usize, 1usize << 40] {
+    for m in EXTREME_MAX {
+        // first in a child process: an abort (allocation sized by the count) must not take the checker down
+        if let Err((k, t)) = probe_extreme(m) {
+            r.eval(1);
+            r.counters.add("extreme_max_probe_failed", 1);
+            r.violation(&k, &format!("{t} | max_speculative={m}"), json!({"leg":"exec-spec","probe":true,"max_speculative":m}));
+            continue;
+        }
+        r.counters.add("extreme_max_probes_ok", 1);
         for idem in [false, true] {
             for p in 0..=2 {
                 sweeps.push(Params { p, m, idem, pol: Policy::Default, mask: 0, alt: false });
